@@ -416,6 +416,23 @@ func runB(l *live, pre string, ops []string) (string, error) {
 		res := "?"
 		fourth := ""
 		switch f[0] {
+		case "BE":
+			// a call recorded from an end-to-end run whose answer was a time-out: effect compared, answer not
+			var ents []string
+			for _, e := range f[1:] {
+				if e == "" {
+					continue
+				}
+				g := strings.Split(e, ".")
+				if c := int(atoiU(g[0])); c > maxc {
+					maxc = c
+				}
+				ents = append(ents, e)
+			}
+			if _, err := l.ask("B " + pre + " " + strings.Join(ents, " ")); err != nil {
+				return "", err
+			}
+			res = "any"
 		case "W":
 			c := int(atoiU(f[1]))
 			if c > maxc {
